@@ -13,11 +13,38 @@ parameters satisfy a0 + t0*ad = b0 + t1*bd as a rational-function identity, with
 there are two crossings and runs from the smaller to the larger parameter on the query ray (keeping its direction);
 max_intersection is the maximum over the same list; Intersection<&SurfacePoint2> casts Ray(point, normal); the traversal
 visitor records a leaf exactly when its lane of the box test is set and prunes with the same mask; the slab test starts from
-(f64::MIN, f64::MAX) so negative parameters are admitted, handles zero direction lanes through the `is_not_zero` select."""
+(f64::MIN, f64::MAX) so negative parameters are admitted, handles zero direction lanes through the `is_not_zero` select;
+farthest_point_direction_distance is a running maximum from f64::MIN of n.(v - origin) over EVERY vertex; the parallel cut-off is <= 1e-12."""
 NOT_DECIDED = "COMPLETENESS - that the hand-written SIMD slab test never prunes a node containing a crossing: lane-wise floating-point reasoning, the heart of C06"
 ASSUMPTIONS = ["parry Qbvh::traverse_depth_first visits every node whose mask lane is set"]
 
 PL = 'geom2::polyline2'
+
+
+def farthest_rule(cx):
+    b = cx.fn('geom2::polyline2::farthest_point_direction_distance')
+    if not b:
+        return
+    r = cx.retval(b)
+    dag = b.dag()
+    V = '(call Polyline::vertices (param line))'
+    PROJ = f'(call Matrix::dot (call Matrix::normalize (field dir (param ray))) (call OPoint::sub (itervar {V}) (field origin (param ray))))'
+    ok = False
+    found = show(r)[:300]
+    lp = [x for x in subterms(r) if x[0] == 'loop']
+    if r[0] == 'phi' and len(lp) == 1 and any(a[0] == 'const' and isinstance(a[1], float) and a[1] < -1e300 for a in r[1:]):
+        car = simplify(dag.carried(lp[0][1], lp[0][2]))
+        found = show(car)[:300]
+        ok = match(f'(call f64::max (anyphi (loop)) {PROJ})', car) is not None or match(f'(call f64::max {PROJ} (anyphi (loop)))', car) is not None
+        from vpa import term as T
+        okx, why = T.exhaustive_loops(cx, b)
+        ok = ok and okx
+    else:
+        # iterator form: vertices().iter().map(|v| n.dot(v - origin)).fold(f64::MIN, f64::max)
+        e = match(f'(call Iterator::fold (call Iterator::map {V} (closure *)) $init (fn f64::max))', r)
+        ok = False   # not met on the pinned tree; extend here when needed
+    cx.ob('EXPR', 'farthest_point_direction_distance', ok,
+          'the farthest projection is a running maximum, from the lowest f64, of n.(v - origin) over EVERY vertex of the polyline, n the normalised ray direction', where=b.file, found=found)
 
 
 def run(cx):
@@ -92,8 +119,8 @@ def run(cx):
                 den = match('(div _ $det)', e['t0'])
                 g = cx.guarded(b, s.bb, '(lt (call f64::abs $det) $eps)', False, den) if den else None
                 gn = cx.guarded(b, nones[0][0].bb, '(lt (call f64::abs $det) $eps)', True, den) if den else None
-                cx.ob('GUARD', 'intersection_param:parallel', g is not None and gn is not None and g['eps'][0] == 'const' and g['eps'][1] > 0,
-                      'None exactly under |det| < eps for the SAME determinant the parameters are divided by', where=s)
+                cx.ob('GUARD', 'intersection_param:parallel', g is not None and gn is not None and g['eps'][0] == 'const' and 0 < g['eps'][1] <= 1e-12,
+                      'None exactly under |det| < eps for the SAME determinant the parameters are divided by; eps is a constant no larger than 1e-12 (the determinant is not normalised: a larger cut-off drops real crossings of short edges at shallow angles)', where=s)
     b = cx.fn(f'{PL}::spanning_ray')
     if b:
         somes = [(s, d) for s, d in cx.rets(b) if d[0] == 'agg' and d[1].endswith('Option::Some')]
@@ -150,3 +177,5 @@ def run(cx):
         okz = any(match('(call AutoSimd::select _ (call AutoSimd::simd_ne _ (call AutoSimd::splat 0.0)) (call AutoSimd::bitand (call AutoSimd::simd_ge _ _) (call AutoSimd::simd_le _ _)))', x) is not None for x in sel)
         cx.ob('EXPR', 'cast_ray:zero-direction-lanes', okz, 'lanes whose direction component is zero use the origin-inside-slab test instead of the division', where=b.file)
         cx.ob('TERM', 'cast_ray:loop', len(b.loops()) == 1, 'one loop over the two axes')
+    farthest_rule(cx)
+
